@@ -41,6 +41,16 @@ Theorem rename_fresh_preserves : forall (p : program) (b : oid) (xb new : name),
 Proof. exact rename_fresh_preserves_thm. Qed.
 Print Assumptions rename_fresh_preserves.
 
+(* The resolution table (which binder every occurrence refers to) of the renamed program is the table of the original
+   program -- also when b is a top-level function. *)
+Theorem rename_preserves_resolution : forall (p : program) (b : oid) (xb new : name),
+  NoDup (map fst (occ_prog p)) ->
+  In (b, xb) (occ_prog p) ->
+  ~ In new (map snd (occ_prog p)) ->
+  res_prog (rename b new p) = res_prog p.
+Proof. exact rename_preserves_resolution_thm. Qed.
+Print Assumptions rename_preserves_resolution.
+
 (* Non-vacuity: a program with shadowing and a capturing closure
      fun f(x) { let y = x + 1  if y > 2 { let y = y * 2  println(string_repr(y)) }  let g = fun(z) { z + y }  g(3) }
      println(string_repr(f(5)))
